@@ -11,7 +11,7 @@ depends on it.
           | (incl m (args arg*) hasBlock params stmt*) | (content arg*)
   params::= (params (p x) | (p x e) … [(rest x)])
   arg   ::= (p e) | (n x e) | (s e)
-  e     ::= null | true | false | <int> | $x | 'ident | (+ a b) | (< a b) | (== a b)
+  e     ::= null | true | false | <int> | $x | 'ident | "quoted | (blist c|s e*) | (+ a b) | (< a b) | (== a b)
           | (list c|s e*) | (map (k e)*) | (call f arg*) | (inspect e) | (keywords e)
 -/
 import RsassModel.Core.Eval
@@ -69,11 +69,13 @@ partial def toExpr : SX → Except String Expr
     match t.toList with
     | '$' :: n => .ok (.var n)
     | '\'' :: n => .ok (.ident n)
+    | '"' :: n => .ok (.qstr n)
     | _ => if isIntTok t then .ok (.num (intOfTok t)) else .error ("bad expr atom " ++ t)
   | .node [.atom "+", a, b] => do .ok (.add (← toExpr a) (← toExpr b))
   | .node [.atom "<", a, b] => do .ok (.lt (← toExpr a) (← toExpr b))
   | .node [.atom "==", a, b] => do .ok (.eq (← toExpr a) (← toExpr b))
   | .node (.atom "list" :: .atom sep :: xs) => do .ok (.list (← xs.mapM toExpr) (sep == "c"))
+  | .node (.atom "blist" :: .atom sep :: xs) => do .ok (.blist (← xs.mapM toExpr) (sep == "c"))
   | .node (.atom "map" :: kvs) => do
     let kv ← kvs.mapM fun
       | .node [.atom k, e] => do .ok (k.toList, ← toExpr e)
@@ -141,6 +143,7 @@ mutual
 partial def exprArgErr : Expr → Bool
   | .add a b | .lt a b | .eq a b => exprArgErr a || exprArgErr b
   | .list xs _ => xs.any exprArgErr
+  | .blist xs _ => xs.any exprArgErr
   | .map kv => kv.any fun p => exprArgErr p.2
   | .call _ args => argsArgErr args
   | .inspect e | .keywords e => exprArgErr e
